@@ -731,15 +731,98 @@ def replay(prop, path):
     return 0
 
 
+def _corrupt_and_validate(name, spec, path, mutate):
+    """mutate(records) -> records'; returns True iff the corrupted trace is rejected"""
+    recs = [json.loads(l) for l in open(path)]
+    recs2 = mutate(recs)
+    if recs2 is None:
+        return None
+    tp = os.path.join(TRACES, "self_%s.ndjson" % name)
+    with open(tp, "w") as fh:
+        for r in recs2:
+            fh.write(json.dumps(r) + "\n")
+    res = vlib.validate_trace_file("self_" + name, spec, spec + ".cfg", tp, max_rejects=1)
+    os.remove(tp)
+    return len(res["rejected"]) > 0
+
+
 def selftest(tier, seed):
     """Anti-vacuity: the specification must be able to state the bugs, and the binding must reject corrupted traces."""
     failures = []
+    done = []
     # (d) deviation constants must be refuted by TLC
-    for name, ov in (("MarkRebased", {"MarkRebased": "FALSE"}), ("AdvanceChecksFirst", {"AdvanceChecksFirst": "FALSE"})):
-        res = tlc_mc("self_" + name, "MC_Reader", "MC_Reader_quick.cfg", overrides=ov, timeout=600, coverage=False,
-                     expect_violation=True)
-        log("[selftest] deviation %s: %s" % (name, res["violation"]))
-        if not res["violation"]:
-            failures.append("deviation %s not refuted" % name)
+    for mod, cfg, ov in (("MC_Reader", "MC_Reader_quick.cfg", {"MarkRebased": "FALSE"}),
+                         ("MC_Reader", "MC_Reader_quick.cfg", {"AdvanceChecksFirst": "FALSE"}),
+                         ("MC_Writer", "MC_Writer_quick.cfg", {"ClearAfterError": "FALSE"}),
+                         ("MC_Writer", "MC_Writer_quick.cfg", {"GuardDirect": "FALSE"})):
+        res = tlc_mc("self_dev", mod, cfg, overrides=ov, timeout=600, coverage=False, expect_violation=True)
+        ok = bool(res["violation"])
+        done.append(("deviation %s %s refuted" % (mod, ov), ok))
+        if not ok:
+            failures.append("deviation %s not refuted" % ov)
+    # (a)/(b) corrupt one field / drop one record of a recorded trace of each kind: must be rejected
+    exe = vlib.build_harness(False)
+    base = os.path.join(TRACES, "self_base")
+    subprocess.run([exe, "reader-hist", "--out", base + "_r.ndjson", "--seed", str(seed), "--count", "60"], cwd=vlib.ROOT, check=True,
+                   stdout=subprocess.DEVNULL)
+    subprocess.run([exe, "writer-hist", "--out", base + "_w.ndjson", "--seed", str(seed), "--count", "60"], cwd=vlib.ROOT, check=True,
+                   stdout=subprocess.DEVNULL)
+    subprocess.run([exe, "parsers", "--mode", "sched", "--parsers", "cnf,aag,btor2", "--out", base + "_p.ndjson", "--seed", str(seed),
+                    "--count", "12"], cwd=vlib.ROOT, check=True, stdout=subprocess.DEVNULL)
+
+    def first(recs, pred):
+        cur = {}
+        for i, r in enumerate(recs):
+            if r.get("ev") == "reset":
+                cur = r
+            try:
+                ok = pred(r, cur)
+            except TypeError:
+                ok = pred(r)
+            if ok:
+                return i
+        return None
+
+    def bump(field, pred):
+        def m(recs):
+            i = first(recs, pred)
+            if i is None:
+                return None
+            recs = [dict(r) for r in recs]
+            recs[i][field] = recs[i][field] + 1
+            return recs
+        return m
+
+    def drop(pred):
+        def m(recs):
+            i = first(recs, pred)
+            if i is None:
+                return None
+            return recs[:i] + recs[i + 1:]
+        return m
+
+    cases = [
+        ("reader pos+1", "Trace_Reader", base + "_r.ndjson", bump("pos", lambda r: r.get("ev") == "ret" and r.get("avail", 0) > 0)),
+        ("reader mark+1", "Trace_Reader", base + "_r.ndjson", bump("mark", lambda r: r.get("ev") == "op" and r.get("op") == "set_mark")),
+        ("reader drop src", "Trace_Reader", base + "_r.ndjson", drop(lambda r: r.get("ev") == "src" and r.get("kind") == "n")),
+        ("reader extra read", "Trace_Reader", base + "_r.ndjson",
+         lambda recs: (lambda i: None if i is None else recs[:i + 1] + [recs[i]] + recs[i + 1:])(first(recs, lambda r: r.get("ev") == "src" and r.get("kind") == "eof"))),
+        ("writer drop sink", "Trace_Writer", base + "_w.ndjson", drop(lambda r, cur: r.get("ev") == "sink" and r.get("kind") == "n" and not cur.get("sink_fails"))),
+        ("writer sink n+1", "Trace_Writer", base + "_w.ndjson", bump("n", lambda r: r.get("ev") == "sink" and r.get("kind") == "n")),
+        ("contract col+1", "Trace_Contract", base + "_p.ndjson", bump("coln", lambda r: r.get("ev") == "pret" and r.get("kind") == "syntax" and not r.get("ref"))),
+        ("contract drop item", "Trace_Contract", base + "_p.ndjson",
+         lambda recs: (lambda idx: None if len(idx) < 3 else recs[:idx[-1]] + recs[idx[-1] + 1:])([i for i, r in enumerate(recs) if r.get("ev") == "pret" and r.get("res") == "some"])),
+        ("contract ln line+1", "Trace_Contract", base + "_p.ndjson", bump("line", lambda r: r.get("ev") == "ln")),
+        ("dimacs col+1", "Trace_Dimacs", base + "_p.ndjson", bump("coln", lambda r, cur: r.get("ev") == "pret" and r.get("kind") == "syntax" and cur.get("parser") == "cnf")),
+    ]
+    for name, spec, path, mut in cases:
+        r = _corrupt_and_validate(name.replace(" ", "_").replace("+", "p"), spec, path, mut)
+        done.append((name + " rejected", r))
+        if r is False:
+            failures.append("corrupted trace accepted: " + name)
+    for pth in glob.glob(base + "*"):
+        os.remove(pth)
+    for d in done:
+        print("selftest: %-45s %s" % d)
     print("selftest: %d failures %s" % (len(failures), failures))
     return 2 if failures else 0
